@@ -574,9 +574,9 @@ pub fn case(t: &mut Tape, ctx: &CaseCtx) -> CaseResult {
 
 pub fn run(mut run: Run) -> i32 {
     run.replay_committed(&case);
-    run.random("all bit flips + all structural mutations", &[Tape::encode_choice(1, 3)], run.n(64, 1500), 80, &case);
-    run.random("sampled mutations", &[Tape::encode_choice(0, 3)], run.n(6000, 150_000), 120, &case);
-    run.random("etag text differential", &[Tape::encode_choice(2, 3)], run.n(6000, 150_000), 120, &case);
+    run.random("all bit flips + all structural mutations", &[Tape::encode_choice(1, 3)], run.n(96, 3000), 80, &case);
+    run.random("sampled mutations", &[Tape::encode_choice(0, 3)], run.n(12_000, 300_000), 120, &case);
+    run.random("etag text differential", &[Tape::encode_choice(2, 3)], run.n(12_000, 300_000), 120, &case);
     run.finish(
         RULE,
         500,
